@@ -51,8 +51,8 @@ fn home() -> &'static PathBuf {
 		let _ = std::fs::remove_dir_all(&h);
 		std::fs::create_dir_all(h.join("xdg/git")).unwrap();
 		std::fs::create_dir_all(h.join("xdg/watchexec")).unwrap();
-		std::fs::write(h.join("xdg/git/ignore"), "glob-git-only.tmp\n").unwrap();
-		std::fs::write(h.join("xdg/watchexec/ignore"), "glob-app-only.tmp\n").unwrap();
+		std::fs::write(h.join("xdg/git/ignore"), "glob-git-only.tmp\nglob-both.tmp\n").unwrap();
+		std::fs::write(h.join("xdg/watchexec/ignore"), "glob-app-only.tmp\nglob-both.tmp\n").unwrap();
 		std::fs::create_dir_all(h.join("cwd")).unwrap();
 		std::env::set_var("HOME", &h);
 		std::env::set_var("XDG_CONFIG_HOME", h.join("xdg"));
@@ -95,7 +95,8 @@ fn project(c: &C12Case) -> Project {
 	let extra = origin.join("conf");
 	std::fs::create_dir_all(&extra).unwrap();
 	let ignore_file = extra.join("my.ignore");
-	std::fs::write(&ignore_file, format!("explf-only.{n}\n")).unwrap();
+	// the explicit file also re-includes a path that both global ignore files ignore: it has the last word
+	std::fs::write(&ignore_file, format!("explf-only.{n}\n!glob-both.tmp\n")).unwrap();
 	let filter_file = extra.join("my.filter");
 	std::fs::write(&filter_file, "# comment\n\nfiltf-*\n").unwrap();
 	let shared = origin.parent().unwrap().join("shared");
@@ -245,7 +246,11 @@ pub fn run(c: &C12Case) -> Outcome {
 	// explicit probes: (description, event, expected verdict when only the option is considered)
 	let explicit: Vec<(&str, Event, Option<bool>)> = match option {
 		1 => vec![("path matched by --ignore", ev(p.origin.join(format!("expl-only.{n}")), false, modify), Some(false)), ("unrelated path", ev(p.origin.join("plain.txt"), false, modify), Some(true))],
-		2 => vec![("path matched by the --ignore-file", ev(p.origin.join(format!("explf-only.{n}")), false, modify), Some(false)), ("unrelated path", ev(p.origin.join("plain.txt"), false, modify), Some(true))],
+		2 => vec![
+			("path matched by the --ignore-file", ev(p.origin.join(format!("explf-only.{n}")), false, modify), Some(false)),
+			("unrelated path", ev(p.origin.join("plain.txt"), false, modify), Some(true)),
+			("path ignored by the global ignore files and re-included by the --ignore-file", ev(p.origin.join("glob-both.tmp"), false, modify), Some(true)),
+		],
 		3 => vec![("path matched by --filter", ev(p.origin.join("filt-a.txt"), false, modify), Some(true)), ("path not matched by --filter", ev(p.origin.join("plain.txt"), false, modify), Some(false))],
 		4 => vec![("path matched by the --filter-file", ev(p.origin.join("filtf-a.txt"), false, modify), Some(true)), ("path not matched by the --filter-file", ev(p.origin.join("plain.txt"), false, modify), Some(false))],
 		5 => vec![("file with the extension", ev(p.origin.join("a.rs"), false, modify), Some(true)), ("file without the extension", ev(p.origin.join("plain.txt"), false, modify), Some(false))],
@@ -371,8 +376,8 @@ fn run_e2e(c: &C12Case) -> Outcome {
 		let x = p.origin.join("xdgconf");
 		std::fs::create_dir_all(x.join("git")).unwrap();
 		std::fs::create_dir_all(x.join("watchexec")).unwrap();
-		std::fs::write(x.join("git/ignore"), "glob-git-only.tmp\n").unwrap();
-		std::fs::write(x.join("watchexec/ignore"), "glob-app-only.tmp\n").unwrap();
+		std::fs::write(x.join("git/ignore"), "glob-git-only.tmp\nglob-both.tmp\n").unwrap();
+		std::fs::write(x.join("watchexec/ignore"), "glob-app-only.tmp\nglob-both.tmp\n").unwrap();
 		o.label("global-config-inside-the-project");
 		x
 	} else {
@@ -474,7 +479,10 @@ fn run_e2e(c: &C12Case) -> Outcome {
 	let mut probes: Vec<(String, PathBuf, bool, bool)> = Vec::new();
 	match option {
 		1 => probes.push(("path matched by --ignore".into(), p.origin.join(format!("expl-only.{n}")), false, true)),
-		2 => probes.push(("path matched by the --ignore-file".into(), p.origin.join(format!("explf-only.{n}")), false, true)),
+		2 => {
+			probes.push(("path matched by the --ignore-file".into(), p.origin.join(format!("explf-only.{n}")), false, true));
+			probes.push(("path ignored by the global ignore files and re-included by the --ignore-file".into(), p.origin.join("glob-both.tmp"), true, true));
+		}
 		3 => probes.push(("path not matched by --filter".into(), p.origin.join("plain.txt"), false, true)),
 		4 => probes.push(("path not matched by the --filter-file".into(), p.origin.join("plain.txt"), false, true)),
 		5 => probes.push(("file without the extension".into(), p.origin.join("plain.txt"), false, true)),
